@@ -47,3 +47,10 @@ mod util;
 
 const INTERNAL_ERROR_MSG: &str = "Fatal internal error. Please consider filing a bug \
                                   report at https://github.com/clap-rs/clap/issues";
+
+// Verification harnesses (Kani); sources live outside the repository.  Off unless built
+// with `--cfg clap_verif` and `CLAP_VERIF_DIR` pointing at the harness directory.
+#[cfg(clap_verif)]
+mod verif_harness {
+    include!(concat!(env!("CLAP_VERIF_DIR"), "/mod.rs"));
+}
